@@ -8,7 +8,8 @@ import bt
 from bt import algos
 from bt.core import SecurityBase, Strategy, StrategyBase
 
-from .. import common, instrument as ins
+from .. import common, instrument as ins, mon2, w2
+from . import _w2case
 
 ID = "C06"
 LEVEL = "exploration"
@@ -26,12 +27,13 @@ def plan(tier):
     q = tier == "quick"
     return [dict(unit="rebalance", n=1500 if q else 40000, builds=["py", "so"], case_timeout=60),
             dict(unit="sub", n=300 if q else 8000, builds=["py", "so"], case_timeout=60),
-            dict(unit="rot", n=300 if q else 8000, builds=["py", "so"], case_timeout=60)]
+            dict(unit="rot", n=300 if q else 8000, builds=["py", "so"], case_timeout=60),
+            dict(unit="inrun", n=200 if q else 5000, builds=["py", "so"], case_timeout=180)]
 
 
 def floors(tier):
     return {"min_decided": 1500, "counters": {"rebalance_calls": 3000, "target_evals": 6000, "closed_evals": 1500, "cash_fraction_calls": 800,
-                                              "sub_spread_evals": 500, "rot_steps": 1500, "exact_evals": 1000, "empty_target_calls": 150}, "max_undecided_frac": 0.3}
+                                              "sub_spread_evals": 500, "rot_steps": 1500, "exact_evals": 1000, "empty_target_calls": 150, "inrun_calls": 3000, "inrun_target_evals": 5000}, "max_undecided_frac": 0.3}
 
 
 def call_costs(events, root, kind):
@@ -268,7 +270,96 @@ def case_rot(cs):
     return common.result(common.HELD, sig=sig, nt=True, cnt=cnt, sample={"n": N, "targets": W, "start_weights": w0, "flat_prices": flat})
 
 
+class InRunCtx(mon2.SharedCtx):
+    """post-condition around every Rebalance call executed inside generated backtests (real trees and paper shadows)"""
+
+    def __init__(self, kind, integer):
+        self.kind = kind
+        self.integer = integer
+        self.viol = None
+        self.calls = 0
+        self.evals = 0
+        self.entry = {}
+
+    def before(self, probe, target):
+        if type(probe.algo).__name__ != "Rebalance" or self.viol is not None:
+            return
+        tw = target.temp.get("weights")
+        if tw is None or target.fixed_income:
+            self.entry.pop(id(probe), None)
+            return
+        try:
+            items = dict(tw.items())
+        except Exception:
+            self.entry.pop(id(probe), None)
+            return
+        if any(not np.isfinite(float(v)) for v in items.values()):
+            self.entry.pop(id(probe), None)      # NaN weights out of a degenerate statistical window: outside "valid weights"
+            return
+        V0 = target.value
+        had = {n: ((c.value != 0) if isinstance(c, StrategyBase) else (c.position != 0)) for n, c in target.children.items()}
+        self.entry[id(probe)] = (items, float(target.temp.get("cash", 0.0)), V0, had, len(ins.EV))
+
+    def after(self, probe, target, result):
+        e = self.entry.pop(id(probe), None)
+        if e is None or self.viol is not None:
+            return
+        items, cash, V0, had, mark = e
+        top = ins.top(target)
+        costs, ntr = call_costs(ins.EV[mark:], top, self.kind)
+        self.calls += 1
+        w = {"node": target.full_name, "now": str(target.now), "targets": items, "cash": cash, "V0": V0, "costs": costs, "trades": ntr,
+             "tree": "real" if not getattr(top, "_is_paper_for_report", False) else "paper"}
+        if abs(V0) < 1e-6:
+            return
+        exact = (not self.integer) and costs == 0.0
+        for n, wt in items.items():
+            c = target.children.get(n)
+            T = (1 - cash) * float(wt) * V0
+            if c is None:
+                if abs(T) > 1e-9 * (1 + abs(V0)) and wt != 0:
+                    self.viol = ("c06_target_missed", dict(w, child=n, what="target child never created"))
+                    return
+                continue
+            self.evals += 1
+            if isinstance(c, SecurityBase):
+                px = c.price
+                if not (px == px) or px == 0:
+                    continue
+                tol = 1e-9 * (1 + abs(T) + abs(V0)) if exact else ((px * c.multiplier if self.integer else 0.0) + 2 * costs + 1e-6 * (1 + abs(T)))
+            else:
+                slack = sum(abs(x.price * x.multiplier) for x in c.members if isinstance(x, SecurityBase) and x.price == x.price) if self.integer else 0.0
+                tol = 1e-9 * (1 + abs(T) + abs(V0)) if exact else (slack + 2 * costs + 1e-6 * (1 + abs(T)))
+            v = c.value
+            if not abs(v - T) <= tol:
+                self.viol = ("c06_target_missed", dict(w, child=n, kind=type(c).__name__, value=v, target_value=T, tolerance=tol))
+                return
+        for n, c in target.children.items():
+            if n in items or not had.get(n):
+                continue
+            if isinstance(c, SecurityBase):
+                if c.position != 0 and c.price != 0:
+                    self.viol = ("c06_not_closed", dict(w, child=n, position=c.position))
+                    return
+            elif abs(c.value) > 1e-9 * (1 + abs(V0)):
+                self.viol = ("c06_not_closed", dict(w, child=n, value=c.value))
+                return
+
+
+def inrun_oracle(run, cnt, res, ctx):
+    common.bump(cnt, "inrun_calls", ctx.calls)
+    common.bump(cnt, "inrun_target_evals", ctx.evals)
+    return ctx.viol
+
+
+def case_inrun(cs):
+    spec = w2.gen(cs, solvers=False, pte=False)
+    return _w2case.run_w2(cs, [inrun_oracle], spec=spec, setup=lambda: InRunCtx(spec["comm"], spec["integer"]))
+
+
 def run_case(unit, cs, idx, build, params):
+    if unit == "inrun":
+        return case_inrun(cs)
     if unit == "sub":
         return case_sub(cs)
     if unit == "rot":
